@@ -527,15 +527,15 @@ inductive Outcome where
   | returned | threw (e : Err) | fuelOut
 deriving Repr, BEq
 
-/-- `refine_mesh`; `log` records the operations performed (`s a b`, `m a b`) -/
+/-- `refine_mesh`; `log` records the operations performed (split?, a, b, squared length that decided), newest first -/
 def refineMesh (fn : Fn R) (k : RefineConsts R) (lminSq lmaxSq : R) (swapOn : Bool) (c : Cell R) (maxIter : Nat) :
-    Cell R × Outcome × List String :=
+    Cell R × Outcome × List (Bool × Nat × Nat × R) :=
   let c0 : Except Err (Cell R) := if swapOn then removeElongated fn k c else .ok c
   match c0 with
   | .error x => (c, .threw x, [])
   | .ok c =>
-    let rec loop (fuel : Nat) (c : Cell R) (chk : CheckSet) (iter : Nat) (log : List String) :
-        Cell R × Outcome × List String :=
+    let rec loop (fuel : Nat) (c : Cell R) (chk : CheckSet) (iter : Nat) (log : List (Bool × Nat × Nat × R)) :
+        Cell R × Outcome × List (Bool × Nat × Nat × R) :=
       match fuel with
       | 0 => (c, .fuelOut, log)
       | fuel + 1 =>
@@ -549,7 +549,7 @@ def refineMesh (fn : Fn R) (k : RefineConsts R) (lminSq lmaxSq : R) (swapOn : Bo
             if lmaxSq < l2 then
               match splitEdge fn k.split c e rest with
               | .error x => (c, .threw x, log)
-              | .ok (c', chk') => loop fuel c' chk' (iter + 1) (s!"s {e.n1} {e.n2}" :: log)
+              | .ok (c', chk') => loop fuel c' chk' (iter + 1) ((true, e.n1, e.n2, l2) :: log)
             else if l2 < lminSq then
               match canBeMerged c e with
               | .error x => (c, .threw x, log)
@@ -557,7 +557,7 @@ def refineMesh (fn : Fn R) (k : RefineConsts R) (lminSq lmaxSq : R) (swapOn : Bo
               | .ok true =>
                 match mergeEdge fn k.split c e rest with
                 | .error x => (c, .threw x, log)
-                | .ok (c', chk') => loop fuel c' chk' (iter + 1) (s!"m {e.n1} {e.n2}" :: log)
+                | .ok (c', chk') => loop fuel c' chk' (iter + 1) ((false, e.n1, e.n2, l2) :: log)
             else loop fuel c rest iter log
     loop maxIter c c.edges 0 []
 
